@@ -132,7 +132,8 @@ def run(ctx):
     grp = psc.calls_to(r"ArgMatcher::start_custom_group$")
     res.floor("R6.6", "group recording in start_custom_arg", len(grp), 1)
     for c in grp:
-        res.check(has_bool(psc, c.bb, "T", r"^is_explicit\(source\)$"), "R6.6", "groups-only-explicit", c.where(), "groups recorded only for explicit sources", "a default-sourced value marks its groups as present")
+        from rules.c03 import explicit_guards
+        res.check(explicit_guards(psc, c) == ["T:is_explicit(source)"], "R6.6", "groups-only-explicit", c.where(), "groups recorded only for explicit sources", "a default-sourced value marks its groups as present")
     ro = psc.calls_to(r"Parser::remove_overrides$")
     for c in ro:
         res.check(any(p == "T" and re.search(r"source", e) for p, e in bool_facts(psc, c.bb)), "R6.6", "overrides-only-cmdline", c.where(), "overrides removed only for command-line occurrences",
